@@ -1747,10 +1747,11 @@ where
                         }
                     }
                     PropertyEscapeKind::StringSet(_) if negate => error("Invalid character escape"),
-                    PropertyEscapeKind::StringSet(strings) => Ok(ir::Node::StringSet {
-                        alternatives: strings.iter().map(|s| Box::from(*s)).collect(),
-                        icase: self.flags.icase,
-                    }),
+                    PropertyEscapeKind::StringSet(strings) => {
+                        let mut alternatives = ClassSetAlternativeStrings::new();
+                        alternatives.extend(strings.iter().map(|s| Box::from(*s)));
+                        Ok(alternatives.into_node(self.flags.icase))
+                    }
                 }
             }
 
